@@ -535,6 +535,36 @@ def rnd_case(rng, max_m=12, max_t=8, max_p=12, claims=False):
     return case
 
 
+def rebalance_case(rng):
+    """An ordinary rebalance: members with DIFFERENT subscriptions, some of them owning a consistent previous
+    generation (every partition owned by at most one old member that subscribes to it, skewed as after members
+    left), the others joining without user data.  Partitions of one topic then travel in both directions between
+    members inside one balance() - the domain of PartitionMovements' pair bookkeeping."""
+    T = rng.randint(2, 6)
+    ppt = [rng.randint(1, 8) for _ in range(T)]
+    M = rng.randint(3, 6)
+    ids = sorted(rng.sample(range(14), M))
+    members = []
+    for m in ids:
+        s = rng.sample(range(T), rng.randint(1, T))
+        if rng.random() < 0.5:
+            s.sort()
+        members.append([m, s])
+    old = set(rng.sample(range(M), rng.randint(1, M - 1)))
+    owned = {i: [] for i in old}
+    for t, n in enumerate(ppt):
+        cands = [i for i in old if t in members[i][1]]
+        if not cands:
+            continue
+        fav = rng.choice(cands)
+        for q in range(n):
+            i = fav if rng.random() < 0.7 else rng.choice(cands)
+            if rng.random() < 0.9:
+                owned[i].append([t, q])
+    claims = [[1, owned[i]] if i in old else None for i in range(M)]
+    return {"ppt": ppt, "members": members, "claims": claims}
+
+
 def rnd_claims(rng, case):
     """adversarial user data: arbitrary claims (possibly for topics without metadata,
     unsubscribed topics, partitions beyond the count), equal / different / zero / default
@@ -657,6 +687,16 @@ def run(ck: Check):
             hist["sticky-reverted" if st.get("reverted") else "sticky-not-reverted"] += 1
             hist["prev-nonempty" if st.get("prev") else "prev-empty"] += 1
     ck.extra["random_histogram"] = dict(hist)
+    # ---------------- ordinary rebalances with different subscriptions (sticky only): previous generation + joiners
+    n_reb = ck.n(40000, 400000)
+    rcases = [rebalance_case(rng) for _ in range(n_reb)]
+    rjobs = [rcases[i::NPROC] for i in range(NPROC)]
+    rres = run_impl("c14_impl.py", {"jobs": [{"kind": "cases", "cases": j, "assignors": ["sticky"]} for j in rjobs],
+                                    "procs": NPROC}, timeout=3000)
+    for j, r in zip(rjobs, rres):
+        for case, rr in zip(j, r):
+            check_case(ck, case, rr, tally, streams, "rebalance")
+    ck.extra["rebalance_family_cases"] = n_reb
     if have_runner:
         results = run_ocaml([s for s, _ in streams])
         settle(ck, tally, streams, results, "ocaml")
